@@ -41,6 +41,17 @@ class InterruptableThread(threading.Thread):
         self.daemon = True
         self.result = None
         self.exc_info = (None, None, None)
+        # Exactly one side may finalize the work of this thread: either the
+        # function itself, once it is past the code it was asked to run, or the
+        # caller that gives up waiting for it (see `timeout`).
+        self._finish_claim = threading.Lock()
+
+    def claim_finish(self):
+        """
+        Atomically claim the right to finalize this thread's work. Returns True
+        for the first caller only (from whichever thread), False ever after.
+        """
+        return self._finish_claim.acquire(False)
 
     def run(self):
         """
@@ -101,7 +112,9 @@ def timeout(duration, func, *args, **kwargs):
     target_thread.join(duration)
     _verif_sync("grader:timer", target_thread)
 
-    if target_thread.is_alive():
+    if target_thread.is_alive() and target_thread.claim_finish():
+        # The function is still running the code it was given: abandon it. From
+        # now on the thread must not touch any shared state (it lost the claim).
         _verif_sync("grader:decided", target_thread)
         target_thread.terminate()
         _verif_sync("grader:terminated", target_thread)
@@ -110,6 +123,9 @@ def timeout(duration, func, *args, **kwargs):
                                          'maybe you have an infinite loop?'.format(duration))
         raise timeout_exception
     else:
+        # Either the thread finished in time, or it claimed its own finalization
+        # just as the time ran out: it is then only doing bookkeeping, let it end.
+        target_thread.join()
         if target_thread.exc_info[0] is not None:
             ei = target_thread.exc_info
             # Python 2 had the three-argument raise statement; thanks to PEP
